@@ -17,7 +17,7 @@ GENERIC = (" Generic obligations of every check: (RANGE-0): no loop or comprehen
            "parameter its callee also takes; (REARM-0) a callback that renews its own one-shot subscription renews it on every returning path after evaluating; "
            "(MEMO-0) a function memoised by argument value neither answers from changeable state nor hands out a mutable object it built; (CONFIG-0) no validated configuration entry is edited in place, "
            "directly or through an alias; (ITERMUT-0) no for loop changes the container it walks; (SHARED-0) no method fills a class-level container; "
-           "(LASTONLY-0) a per-trip object is registered on every trip.")
+           "(LASTONLY-0) a per-trip object is registered on every trip; (BRACKET-0) a phase flag set and cleared by one function is cleared on every returning path.")
 checks = []
 for p in ALL:
     if p not in CLAIMS:
